@@ -4,6 +4,7 @@ import (
 	"bytes"
 	"fmt"
 	"sync/atomic"
+	"testing/iotest"
 
 	"github.com/biogo/hts/bgzf"
 )
@@ -37,6 +38,14 @@ func c15check(c *Ctx, cas c04case, x idx, queries [][2]int, nrefs int, evals, no
 		atomic.AddInt64(evals, 1)
 		if err != nil || !bytes.Equal(b1, b2) {
 			c.Violate(cas.Kind+":bytes-differ", fmt.Sprintf("index built from %+v: written, re-read and written again differs (%d vs %d bytes, first difference at %d, err %v)", cas.Recs, len(b1), len(b2), firstDiff(b1, b2), err), cas)
+			return
+		}
+		// the same through a source that delivers one byte per Read (pipes and sockets do)
+		if y1, err := x.readFrom(iotest.OneByteReader(bytes.NewReader(b1))); err != nil {
+			c.Violate(cas.Kind+":read-error:short-reads", fmt.Sprintf("re-reading the index built from %+v from a one-byte-at-a-time source: %v", cas.Recs, err), cas)
+			return
+		} else if b3, err := y1.write(); err != nil || !bytes.Equal(b1, b3) {
+			c.Violate(cas.Kind+":bytes-differ:short-reads", fmt.Sprintf("index built from %+v: written, re-read from a one-byte-at-a-time source and written again differs (%d vs %d bytes, first difference at %d, err %v)", cas.Recs, len(b1), len(b3), firstDiff(b1, b3), err), cas)
 			return
 		}
 		// statistics: equal on both sides and equal to the truth
